@@ -160,21 +160,85 @@ _CKEY_STREAM = {"name": "ckey", "harness": "ckey", "driver": "ckey", "judge_driv
 _STORE_STREAM = {"name": "store", "harness": "store", "driver": "store", "quick_cases": 150, "thorough_cases": 3000,
                  "nontrivial": _store_nontrivial, "timeout": 3000}
 
-def _crash_judge(strict):
-    def j(op, impl, spec):
+class _CrashJudge:
+    """judge of crash images.  Stateful per case (rows are fed in order from the `case` line): it keeps the write
+    transactions seen so far, so that an image taken after a batch straddled a memtable rotation (`H=straddle`, the
+    known finding) is still judged: it must be the expected state with, at most, a suffix of THAT batch's writes
+    missing — losing anything else is a violation like any other."""
+
+    def __init__(self, strict):
+        self.strict = strict
+        self.reset()
+
+    def reset(self):
+        self.txns = []          # list of write lists [(key_hex, value_hex or None)]
+        self.straddles = []     # indices into self.txns
+
+    @staticmethod
+    def _render(m):
+        if not m:
+            return "-"
+        return ",".join(f"{k}={v}" for k, v in sorted(m.items(), key=lambda kv: bytes.fromhex(kv[0])))
+
+    def _allowed(self):
+        """states reachable when the single straddling batch lost a suffix of its writes; the newest transaction may
+        also be absent (image taken inside its commit)"""
+        out = set()
+        k = self.straddles[0]
+        n = len(self.txns[k])
+        for last in (len(self.txns), len(self.txns) - 1):
+            for j in range(n + 1):
+                m = {}
+                for i, ws in enumerate(self.txns[:max(last, 0)]):
+                    for (key, val) in (ws[:j] if i == k else ws):
+                        if val is None:
+                            m.pop(key, None)
+                        else:
+                            m[key] = val
+                out.add(self._render(m))
+        return out
+
+    def __call__(self, op, impl, spec):
+        w = op.split()
+        base = w[0].split("@")[0] if w else ""
+        if base == "case":
+            self.reset()
         if "PANIC" in impl:
             return False
-        if not strict and " H=" in impl:
-            return True          # outside the hypothesis of the _partial theorem (known finding family)
-        impl = impl.split(" H=")[0]
-        if impl == spec or impl == "img=none":
+        straddled_now = " S=straddle" in impl
+        impl = impl.replace(" S=straddle", "")
+        if base == "txn":
+            ws = []
+            for t in w[1:]:
+                key, val = t.split("=", 1)
+                ws.append((key, None if val in ("DEL", "SDEL") else val))
+            self.txns.append(ws)
+            if straddled_now:
+                self.straddles.append(len(self.txns) - 1)
+        if base in ("reopen", "crashtear"):
+            if base == "crashtear" and self.txns:
+                self.txns.pop()     # the torn transaction is gone
+            # a clean close (or the recovery after the tear) flushes/replays everything: earlier straddles are settled
+            self.straddles = [] if base == "reopen" else [k for k in self.straddles if k < len(self.txns)]
+        outside = " H=" in impl
+        body = impl.split(" H=")[0]
+        if body == spec or body == "img=none":
             return True
         if spec.startswith("img="):
-            iv = dict(t.split("=", 1) for t in impl.split() if "=" in t)
+            iv = dict(t.split("=", 1) for t in body.split() if "=" in t)
             sv = dict(t.split("=", 1) for t in spec.split() if "=" in t)
-            return iv.get("img") in sv["img"].split("|") and iv.get("re") == "ok"
+            if iv.get("img") in sv["img"].split("|") and iv.get("re") == "ok":
+                return True
+            if outside and not self.strict:
+                # known-finding family: only (a suffix of) the straddling batch may be missing
+                if len(self.straddles) != 1:
+                    return True      # several straddles in one case: not analysed (counted as outside H)
+                return iv.get("re") == "ok" and iv.get("img") in self._allowed()
         return False
-    return j
+
+
+def _crash_judge(strict):
+    return _CrashJudge(strict)
 
 
 _CRASH_STREAM = {"name": "crash", "harness": "crash", "driver": "store", "quick_cases": 80, "thorough_cases": 1500,
@@ -187,8 +251,10 @@ _CRASH_RULE = ("workloads of write transactions (1-8 writes, values up to 900 by
                "INSIDE commit, rotation, flush, manifest replacement and compaction (yield points at every file-system boundary "
                "of those operations); every image is opened with the real TreeBuilder, scanned (must equal the state before or "
                "after the interrupted transaction, all acknowledged commits included), written to, closed cleanly, opened again "
-               "and scanned again; cases in which a rotation happened between a batch's WAL append and the end of its apply are "
-               "outside H (known finding) and counted, not judged; non-trivial = at least 3 crash images; distinct = distinct op lists")
+               "and scanned again; the process may also die with the last commit's record half written (torn tail: crashtear), after "
+               "which the store is reopened (repair) and the workload continues; images taken after a batch straddled a memtable "
+               "rotation (known finding) are still judged: only a suffix of THAT batch's writes may be missing; cases with several "
+               "straddling batches are counted, not judged; non-trivial = at least 3 crash images; distinct = distinct op lists")
 _CRASH_ASSUME = ["process-crash model only: every completed write is kept; power loss (unsynced data lost, namespace operations "
                  "undone) is not explored by this check and not modelled by the theorems (partial)",
                  "crash instants are the yield points (file-system boundaries of the engine operations), not arbitrary byte "
